@@ -45,8 +45,16 @@ func generateFor(e *Engine, names []string) ([]*FnCtx, []string) {
 		}
 		if err := fc.Generate(); err != nil {
 			errs = append(errs, fmt.Sprintf("%s: %v", n, err))
+			// A clause that no longer binds (a renamed local, a changed loop) stops the generation there. The
+			// obligations generated before that point precede it in reverse post-order, so none of them depends
+			// on the part that could not be bound: they are kept and decided; the rest stays undecided.
+			if _, ok := err.(bindError); ok && len(fc.obls) > 0 {
+				fc.partial = true
+				out = append(out, fc)
+			}
 			continue
 		}
+		errs = append(errs, fc.skippedAts...)
 		out = append(out, fc)
 	}
 	return out, errs
